@@ -83,6 +83,9 @@ class Gen:
     def sp(self, mand=False):
         if self.mode == "canon": return " " if mand else ""
         parts = [self.R.choice(LAYOUTS) for _ in range(self.R.randint(1 if mand else 0, 3))]
+        if self.R.random() < 0.04:
+            # layout longer than any fixed look-ahead window: a long explanatory comment, a blank line and deep indentation
+            parts.append(self.R.choice(["@* " + "a long explanatory comment, " * 4 + "*@", "\n\n" + " " * 90, "@* x *@" + "\t" * 70 + "@* y *@", " " * 63 + "\r\n" + " " * 200]))
         return "".join(parts)
 
     def var(self):
@@ -151,6 +154,11 @@ class Gen:
                                   else [("text", " "), ("cmt", " todo "), ("text", "\n")] if r < 0.36
                                   else self.dironly(depth - 1, nlocals) if r < 0.5 and depth > 1 else self.items(depth - 1, nlocals))
                 out.append(("call", name, R.randrange(NEXPR + nlocals), blocks))
+        if out and out[-1][0] in ("if", "iflet", "for", "match") and R.random() < 0.3:
+            # punctuation glued to the closing brace of a block (prose: "Hello @if .. {..}, welcome"; lists: "{@x}, "): text like any other
+            out.append(("text", R.choice([",", ", and", ",\n", ";", ".", ":", ")", "]", "!", "=", "|", "-", "+", "?", ",,", "(", "["])))
+        if out and out[-1][0] in ("call", "expr", "esc", "cmt") and R.random() < 0.1:
+            out.append(out[-1])        # the same call / expression / escape / comment twice in a row: two equal nodes, both rendered
         if not top and out and out[-1][0] != "text" and R.random() < 0.2:
             out.append(("text", R.choice([" ", "\n", "\n    ", "\t", " \r\n"])))      # only white space between the last item and the closing brace
         return out
